@@ -557,3 +557,7 @@ def run(repo: Repo, rep: Report, tier: str) -> None:
                     reseats.append(st)
         rep.check(bool(reseats), "C15-R20", f"inliner: {m20} is re-seated for a nested call before the body is lowered", f"{len(reseats)} re-seating store(s) ahead of the body loop" if reseats else
                   f"the body is lowered in the caller's live `{m20}`: the callee resolves free names to the locals of whichever function called it", inl20.loc(loop20))
+
+    # ---------------- R21 --------------------------------------------------------------
+    _borrow15(repo, rep, "C03", "C03-R2", "C15-R21", "the literal 1 passed for a Signal parameter that the body uses as `when=` is a constant 1 on a fresh signal, not on the enable signal: it "
+              "opens the gates only if the lowering projects it like any other signal", select=lambda o: "exempt from retyping" in o.construct, floor=1)
